@@ -47,6 +47,8 @@ def sets_catalog(d):
     add('box0hi', [{'k': 'box', 'lo': [-1.0, -2.0], 'hi': [0.0, 0.0]}], [-0.5, -1.0], 'lp')
     add('boxpos', [{'k': 'box', 'lo': [0.5, 1.0], 'hi': [1.5, 2.0]}], [1.0, 1.5], 'lp')
     add('boxmix', [{'k': 'box', 'lo': [0.0, -1.5], 'hi': [1.25, 0.0]}], [0.5, -0.75], 'lp')
+    add('boxhalf', [{'k': 'box', 'lo': [0.0, -1.0], 'hi': [1.0, 1.5]}], [0.5, 0.25], 'lp')
+    add('boxhalf2', [{'k': 'box', 'lo': [-1.0, -1.5], 'hi': [1.0, 0.0]}], [0.0, -0.75], 'lp')
     add('boxrows', [{'k': 'box', 'lo': [-1.0, -0.5], 'hi': [1.0, 1.5], 'style': 'rows'}], [0.0, 0.5], 'lp')
     add('boxentry', [{'k': 'box', 'lo': [-0.5, -1.0], 'hi': [1.5, 0.5], 'style': 'entry'}], [0.5, -0.25], 'lp')
     add('abs', [{'k': 'box', 'lo': [-1.0, -0.25], 'hi': [0.5, 1.25], 'style': 'abs'}], [-0.25, 0.5], 'lp')
@@ -166,7 +168,7 @@ def flip_row(row):
 
 
 def make(d, family, pal, U, att='default', W=None, okind='minmax', mask=None, adapt_style='entry',
-         style='A', orient=0, split=False, obj_first=True, attach='list', solver=None):
+         style='A', orient=0, split=False, obj_first=True, attach='list', solver=None, vec=False, pw=False):
     """Assemble one spec.  U / W are set names of sets_catalog(d)."""
     cat = sets_catalog(d)
     t = template(family, d, pal, mask)
@@ -230,6 +232,12 @@ def make(d, family, pal, U, att='default', W=None, okind='minmax', mask=None, ad
     if ny:
         spec['mask'] = mask
         spec['adapt_style'] = adapt_style
+    if vec:
+        spec['vec'] = True
+        spec['tag'] += '|vec'
+    if pw:
+        spec['pw'] = True
+        spec['tag'] += '|pw'
     return spec
 
 
@@ -301,6 +309,20 @@ def _gen_pal(pal, thorough):
                 for split in (False, True):
                     for orient in (0, 1, 2):
                         yield make(2, fam, pal, U, style=style, split=split, orient=orient)
+    # P9: array-valued robust constraints (several rows in one constraint object)
+    for U in ('box', 'box0lo', 'boxmix', 'boxhalf', 'boxhalf2', 'abs', 'n1', 'seg', 'n2', 'ellip', 'pn3', 'kl', 'expc',
+              'n2^box', 'n2^expc') if not thorough else names2:
+        for fam in ('S', 'L1', 'L2', 'E'):
+            for att, okind in (('default', 'minmax'), ('forall', 'min'), ('first_own', 'minmax_pw')):
+                for orient in (0, 2):
+                    yield make(2, fam, pal, U, att=att, W='n1' if U != 'n1' else 'box', okind=okind, orient=orient, vec=True)
+    # P10: piecewise constraints maxof(g1, g2, ...) <= 0 / minof(...) >= 0 with per-constraint sets
+    for U in ('box', 'boxhalf', 'abs', 'n1', 'seg', 'n2', 'pn3', 'kl', 'n2^half') if not thorough else names2:
+        for fam in ('S', 'L1', 'L2'):
+            for att, okind in (('default', 'minmax'), ('forall', 'min'), ('first_own', 'minmax'), ('forall_mixed', 'min_pw')):
+                for orient in (0, 1):
+                    yield make(2, fam, pal, U, att=att, W='n1' if U != 'n1' else 'box', okind=okind, orient=orient, pw=True,
+                               attach='list' if orient else 'args')
     # P6: robust equalities (feasible: coefficients inside the mask; infeasible otherwise)
     for U in ('box', 'n1', 'n2', 'seg', 'fixed', 'kl', 'boxmix'):
         for mask in all_masks(1, 2):
